@@ -17,3 +17,13 @@ func TestC16(t *testing.T) { RunK(t, CfgC16()) }
 func TestC18K(t *testing.T) { RunK(t, CfgC18()) }
 func TestC19(t *testing.T) { RunK(t, CfgC19()) }
 func TestC10K(t *testing.T) { RunK(t, CfgC10()) }
+
+const ruleBookD = "D: order books of 1-12 directly stored worth/quantity bids over 1-5 bidders, prices from a pool of 1-5 (ties frequent; integers, n/d ratios, 18-digit fractions, 1e-18..1e6), caps from 1 to above supply, supply from 1 to 1e33, forced dust bids at the top price; CalculateBatchAllocation's MatchingInfo vs the big-integer linear-scan reference."
+
+func TestC03D(t *testing.T) { RunBookD(t, "C03", ruleBookD) }
+func TestC04D(t *testing.T) { RunBookD(t, "C04", ruleBookD) }
+func TestC09D(t *testing.T) {
+	RunVestD(t, "D: schedules of 1-100 instalments with constructed weights, proceeds 0 / < n / small / up to 1e33 minted into the paying escrow of a directly stored open auction, ApplyVestingSchedules, then generated block times on / around / skipping release instants through the module's BeginBlock; instalment amounts, sum, release times, payouts per block, released flags and status vs the reference.")
+}
+func TestC15(t *testing.T) { RunC15(t) }
+func TestC17(t *testing.T) { RunC17(t) }
